@@ -21,6 +21,7 @@ DIAG = "diagnostic path (arguments of trace! / debug-only instruction trace): de
 OFFS = "byte offsets computed by char_indices()/len() of the same string with start <= end (char_substring_offset / nth); units checked by R15a"
 
 TRIAGE = [
+    (r"^vm::heap::payload$", r"DivisionByZero", "the divisor is size_of::<VCell>(), the size of a non-empty enum: not zero"),
     (r"^marwood_wasm::Marwood::autocomplete$", r"unwrap", "chars().last() of a text tested non-empty in the same condition (short-circuit `||`)", r"Chars.*last"),
     (r"^marwood_wasm::Marwood::eval$", r"index", INV_SPAN),
     (r"highlight_char$", r"Overflow\(Add\)", "pos is rustyline's cursor, a byte offset into the line: pos <= line.len() <= isize::MAX"),
